@@ -213,7 +213,7 @@ macro_rules! dispatch_impl {
                         "fuse_ss" => fuse_ss::<T, I, $V>(style, d(1), x),
                         "ftree" => ftree::<T, I, $V>(style, d(1), d(2), &c.dims[3..], x),
                         _ => fold::<T, I, $V>(style, d(1), d(2), x),
-                    }; 1 A1 NA1, 2 A2 NA2, 3 A3 NA3, 4 A4 NA4)
+                    }; 1 A1 NA1, 2 A2 NA2, 3 A3 NA3, 4 A4 NA4, 5 A5 NA5, 6 A6 NA6, 7 A7 NA7)
                 }
                 "proj2d" | "maxu2d" | "umax2d" => {
                     t1_2d!($V, fam, d(0), d(1), T, I, match c.op {
@@ -230,6 +230,9 @@ macro_rules! dispatch_impl {
                 "eqv" => match (fam, d(0)) {
                     ("arr", 1) => eqv::<[$V; 1], $V>(x), ("arr", 2) => eqv::<[$V; 2], $V>(x),
                     ("arr", 3) => eqv::<[$V; 3], $V>(x), ("arr", 4) => eqv::<[$V; 4], $V>(x),
+                    ("arr", 5) => eqv::<[$V; 5], $V>(x), ("arr", 7) => eqv::<[$V; 7], $V>(x),
+                    ("marr", 5) => eqv::<MArr1<$V, 5>, $V>(x), ("marr", 7) => eqv::<MArr1<$V, 7>, $V>(x),
+                    ("marrd", 5) => eqv::<MArrD1<A5, $V>, $V>(x), ("marrd", 7) => eqv::<MArrD1<A7, $V>, $V>(x),
                     ("marr", 1) => eqv::<MArr1<$V, 1>, $V>(x), ("marr", 2) => eqv::<MArr1<$V, 2>, $V>(x),
                     ("marr", 3) => eqv::<MArr1<$V, 3>, $V>(x), ("marr", 4) => eqv::<MArr1<$V, 4>, $V>(x),
                     ("marrd", 1) => eqv::<MArrD1<A1, $V>, $V>(x), ("marrd", 2) => eqv::<MArrD1<A2, $V>, $V>(x),
@@ -246,6 +249,10 @@ macro_rules! dispatch_impl {
                         ("marr", 2) => disc::<MArr1<$V, 2>, $V>(style, d(1), x),
                         ("marr", 3) => disc::<MArr1<$V, 3>, $V>(style, d(1), x),
                         ("marr", 4) => disc::<MArr1<$V, 4>, $V>(style, d(1), x),
+                        ("marr", 5) => disc::<MArr1<$V, 5>, $V>(style, d(1), x),
+                        ("marr", 7) => disc::<MArr1<$V, 7>, $V>(style, d(1), x),
+                        ("marrd", 5) => disc::<MArrD1<A5, $V>, $V>(style, d(1), x),
+                        ("marrd", 7) => disc::<MArrD1<A7, $V>, $V>(style, d(1), x),
                         ("marrd", 1) => disc::<MArrD1<A1, $V>, $V>(style, d(1), x),
                         ("marrd", 2) => disc::<MArrD1<A2, $V>, $V>(style, d(1), x),
                         ("marrd", 3) => disc::<MArrD1<A3, $V>, $V>(style, d(1), x),
